@@ -13,19 +13,130 @@ RULE = "rule instances = (rule, site) pairs over MIR expressions / stores / bran
 PD = 'paths::PathData'
 
 
+# --------------------------------------------------------------------------
+# exact value shapes (casts are erased by the describer; Add/Mul operands are order-normalised, so both orders are tried)
+# --------------------------------------------------------------------------
+
+def is_int(d, v):
+    """the literal integer v (not a named constant, not an expression containing it)"""
+    return d[0] == 'const' and d[1] == 'int' and str(d[2]) == str(v)
+
+
+def is_field_of(d, name, base=None):
+    """d IS the field `name` (of a place satisfying `base`), not an expression that mentions it"""
+    return d[0] == 'field' and d[2] == name and (base is None or base(d[1]))
+
+
+def is_param(d, name):
+    return d[0] == 'param' and d[2] == name
+
+
+def is_self(d):
+    return d[0] == 'param' and d[1] == 1 and d[2] == 'self'
+
+
+def is_self_path(d):
+    return is_field_of(d, 'path', is_self)
+
+
+def is_len_of(d, what):
+    """`x.len()` (any `..::len` method with the single receiver argument) where what(x)"""
+    return d[0] == 'call' and d[1].rsplit('::', 1)[-1] == 'len' and len(d[3]) == 1 and what(d[3][0])
+
+
+def two(d, op, p, q):
+    """d is exactly `bin op(a, b)` with {a, b} matched by (p, q) in either order (for commutative ops)"""
+    if not (d[0] == 'bin' and d[1] == op):
+        return False
+    return (p(d[2]) and q(d[3])) or (op in D.COMM and p(d[3]) and q(d[2]))
+
+
+def arith(d, op, p, q):
+    """d is exactly `a op b` for op in Add/Mul, written with the operator or as `a.saturating_<op>(b)`; {a, b} matched by (p, q)"""
+    if d[0] == 'call' and d[1].rsplit('::', 1)[-1] == 'saturating_' + op.lower() and len(d[3]) == 2:
+        return (p(d[3][0]) and q(d[3][1])) or (p(d[3][1]) and q(d[3][0]))
+    return two(d, op, p, q)
+
+
+def is_counter_add(v, field, amount):
+    """v is exactly `self.path.<field> + amount` (saturating_add or plain +)"""
+    return arith(v, 'Add', lambda x: is_field_of(x, field, is_self_path), amount)
+
+
+def on_cycle(body, bb):
+    """the block can execute more than once per call"""
+    return bb in body.reachable_strict(bb)
+
+
+def edge_returns(F, body, frm, tgt):
+    """values `_0` holds at the normal returns reached after taking the edge frm->tgt (not passing `frm` again):
+    the definitions of `_0` are searched backward from those returns only through blocks on the edge's side, so
+    the result is the value returned ON THIS EDGE (the descriptor of `_0` at a shared return block is a phi over
+    everything the function can return).  An entry None = `_0` is not (wholly) written after the edge on some path."""
+    region = body.reachable_from(tgt, avoid=[frm])
+    d = describer(F, body)
+    stm, cal = {}, {}
+    for df in body.defs_of(0):
+        if df[0] in ('stmt', 'field', 'sd'):
+            stm.setdefault(df[1], []).append(df)
+        elif df[0] in ('call', 'callfield'):
+            cal[df[1]] = df
+    out = []
+    seen = set()
+    stack = [(r, False) for r in body.return_blocks() if r in region]
+    while stack:
+        blk, from_succ = stack.pop()
+        if (blk, from_succ) in seen:
+            continue
+        seen.add((blk, from_succ))
+        found = None
+        if from_succ and blk in cal:
+            found = cal[blk]
+        elif blk in stm:
+            found = max(stm[blk], key=lambda x: x[2])
+        if found is not None:
+            if found[0] == 'stmt':
+                v = d.rvalue(found[3], found[1], found[2], 0)
+            elif found[0] == 'call':
+                v = d.call_desc(found[2], 0)
+            else:
+                v = None  # piecewise write of the return place: not understood, fail closed
+            if v not in out:
+                out.append(v)
+            continue
+        if blk == tgt and None not in out:
+            out.append(None)  # reached the edge itself without a write (a back edge into tgt is followed below)
+        for p in body.pred[blk]:
+            if p in region:
+                stack.append((p, True))
+    return out
+
+
 def rule_a(ctx):
     F = ctx.facts
     b = ctx.pfn('PathData::anti_amplification_blocked')
     rd = [y for _, x in ret_descs(F, b) for y in flat(x)]
-    ok = False
-    for x in rd:
-        if x[0] == 'bin' and x[1] == 'Lt':
-            l, r = x[2], x[3]
-            ok = l[0] == 'bin' and l[1] == 'Mul' and D.has_field(l, 'total_recvd') and D.has_const(l, 3) and r[0] == 'bin' and r[1] == 'Add' and D.has_field(r, 'total_sent') and D.has_param(r, name='bytes_to_send')
+
+    def formula(x):
+        return x[0] == 'bin' and x[1] == 'Lt' \
+            and arith(x[2], 'Mul', lambda y: is_field_of(y, 'total_recvd', is_self), lambda y: is_int(y, 3)) \
+            and arith(x[3], 'Add', lambda y: is_field_of(y, 'total_sent', is_self), lambda y: is_param(y, 'bytes_to_send'))
+    cmps = [x for x in rd if not (x[0] == 'const' and str(x[2]) == '0')]   # everything that is not the literal `false`
+    ok = bool(cmps) and all(formula(x) for x in cmps)
     ctx.check(ok, 'a', 'blocked_formula', b, b.where(), 'total_recvd * 3 < total_sent + bytes_to_send', 'anti_amplification_blocked is no longer total_recvd*3 < total_sent + bytes_to_send: %s' % [D.render(x) for x in rd])
-    v = [br for br in branches(F, b) if D.has_field(br.desc, 'validated')]
-    okv = bool(v) and all(any(y[0] == 'const' and str(y[2]) == '0' for _, x in ret_descs(F, b) for y in flat(x)) for _ in [0])
-    ctx.check(okv, 'a', 'validated_paths_never_blocked', b, b.where(), '!validated && ..', 'the validated short-circuit is gone')
+    # a branch on self.validated that every path passes and whose validated==TRUE edge returns the literal false
+    okv = False
+    seen = []
+    for br in branches(F, b):
+        inner, neg = peel_not(br.desc)
+        if not is_field_of(inner, 'validated', is_self):
+            continue
+        vals = edge_returns(F, b, br.bb, br.target(0 if neg else 1))
+        seen.append([D.render(x) if x else '?' for x in vals])
+        if vals and all(x is not None and x[0] == 'const' and str(x[2]) == '0' for x in vals) and all(b.dominates(br.bb, r) for r in b.return_blocks() if r in b.live_blocks()):
+            okv = True
+    ctx.check(okv, 'a', 'validated_paths_never_blocked', b, b.where(), '!validated && ..: the validated edge returns false',
+              'a validated path can be reported as amplification-blocked (no dominating branch on self.validated whose TRUE edge returns false; returned on that edge: %s)' % seen)
 
 
 def rule_b(ctx):
@@ -41,16 +152,36 @@ def rule_b(ctx):
     ctx.floor('b', 'datagram_allocation_sites', len(allocs), 1)
     tests = pt.calls_to('PathData::anti_amplification_blocked')
     ctx.floor('b', 'amplification_test_sites', len(tests), 1)
+    # the two locals of the test argument, identified by what is stored in them (not by their names):
+    #   counter: the local incremented by exactly one where a datagram is allocated (X = X + 1 dominated by an allocation site)
+    #   size:    the local initialised from self.path.current_mtu()
+    counters, sizes = set(), set()
+    for l in range(len(pt.locals)):
+        for df in pt.defs_of(l):
+            if df[0] == 'stmt':
+                x = d.rvalue(df[3], df[1], df[2], 0)
+                if two(x, 'Add', lambda y: y[0] == 'local' and y[1] == l, lambda y: is_int(y, 1)) and any(pt.dominates(bb, df[1]) for bb, _ in allocs):
+                    counters.add(l)
+            elif df[0] == 'call':
+                x = d.call_desc(df[2], 0)
+                if x[0] == 'call' and x[1] == 'PathData::current_mtu' and len(x[3]) == 1 and is_self_path(x[3][0]):
+                    sizes.add(l)
+    ctx.floor('b', 'datagram_counter_local', len(counters), 1)
+    ctx.floor('b', 'segment_size_local', len(sizes), 1)
+    nbr = 0
     for t in tests:
-        a = arg_desc(F, t, 1)
-        ok = D.render(describer(F, pt, stop_named=True).operand(t.args[1], t.bb, term_idx(pt, t.bb))).find('num_datagrams') >= 0 and 'segment_size' in D.render(describer(F, pt, stop_named=True).operand(t.args[1], t.bb, term_idx(pt, t.bb)))
-        ctx.check(ok, 'b', 'test_accounts_for_built_datagrams', pt, t.where(), 'segment_size * num_datagrams + 1', 'the amplification test does not account for datagrams already built in this call: ' + D.render(a)[:160])
+        a = d.operand(t.args[1], t.bb, term_idx(pt, t.bb))
+        ok = two(a, 'Add', lambda y: is_int(y, 1),
+                 lambda y: two(y, 'Mul', lambda z: z[0] == 'local' and z[1] in counters, lambda z: z[0] == 'local' and z[1] in sizes))
+        ctx.check(ok, 'b', 'test_accounts_for_built_datagrams', pt, t.where(), 'segment_size * num_datagrams + 1', 'the amplification test does not account for exactly the datagrams already built in this call (size * count + 1): ' + D.render(a)[:160])
         for br in branches(F, pt):
             inner, neg = peel_not(br.desc)
             if inner[0] == 'call' and contains_site(inner, t):
+                nbr += 1
                 t_blocked = br.target(0 if neg else 1)
                 bad = [l for bb, l in allocs if bb in pt.reachable_from(t_blocked, avoid=[br.bb]) or not pt.dominates(br.bb, bb)]
                 ctx.check(not bad, 'b', 'allocation_only_when_not_blocked', pt, t.where(), 'every buf_capacity += .. is dominated by the not-blocked edge', 'a datagram can be allocated although the path is amplification-blocked (lines %s)' % bad)
+    ctx.floor('b', 'branches_on_amplification_test', nbr, 1)
     sl = ctx.pfn('Connection::set_loss_detection_timer')
     tests = sl.calls_to('PathData::anti_amplification_blocked')
     ok = False
@@ -99,27 +230,35 @@ def rule_d(ctx):
     F = ctx.facts
     who_may_write(ctx, 'd', 'total_sent_writers', PD, 'total_sent', ['Connection::poll_transmit', 'PathData::new', 'PathData::from_previous'], floor=1)
     who_may_write(ctx, 'd', 'total_recvd_writers', PD, 'total_recvd', ['Connection::handle_event', 'Connection::handle_coalesced', 'Connection::handle_first_packet', 'PathData::new', 'PathData::from_previous'], floor=3)
+    n = 0
     for w, v in store_values(ctx, PD, 'total_sent'):
         r = F.root_of(w.body)
         if r.short == 'Connection::poll_transmit':
-            ok = v[0] == 'call' and v[1] == 'u64::saturating_add' and D.has_field(v[3][0], 'total_sent') and D.has_call(v[3][1], 'Vec::len')
-            ctx.check(ok, 'd', 'total_sent_counts_buffer', r, w.where(), D.render(v)[:120], 'total_sent is not raised by buf.len(): ' + D.render(v)[:160])
+            n += 1
+            ok = is_counter_add(v, 'total_sent', lambda x: is_len_of(x, lambda y: is_param(y, 'buf')))
+            ctx.check(ok, 'd', 'total_sent_counts_buffer', r, w.where(), D.render(v)[:120], 'total_sent is not raised by exactly buf.len(): ' + D.render(v)[:160])
+    ctx.floor('d', 'total_sent_charge_sites', n, 1)
     he = ctx.pfn('Connection::handle_event')
     for w, v in store_values(ctx, PD, 'total_recvd', in_fn=he):
-        x = v[3][1] if v[0] == 'call' and v[1] == 'u64::saturating_add' else v
-        ok = v[0] == 'call' and v[1] == 'u64::saturating_add' and D.has_field(x, 'first_decode') and not D.has_field(x, 'remaining') and not ('remaining' in D.render(x))
+        ok = is_counter_add(v, 'total_recvd', lambda x: is_len_of(x, lambda y: is_field_of(y, 'first_decode', lambda z: D.has_param(z, name='event')))) and not on_cycle(w.body, w.bb)
         ctx.check(ok, 'd', 'first_packet_credited_once', he, w.where(), D.render(v)[:160],
-                  'handle_event must credit only the first packet (handle_coalesced credits the remainder): crediting `remaining` here counts those bytes twice: ' + D.render(v)[:200])
+                  'handle_event must credit exactly the first packet, once (handle_coalesced credits the remainder): crediting `remaining` here counts those bytes twice: ' + D.render(v)[:200])
     hc = ctx.pfn('Connection::handle_coalesced')
     for w, v in store_values(ctx, PD, 'total_recvd', in_fn=hc):
-        ok = v[0] == 'call' and v[1] == 'u64::saturating_add' and D.has_param(v[3][1], name='data')
-        ctx.check(ok, 'd', 'coalesced_remainder_credited_once', hc, w.where(), D.render(v)[:120], 'handle_coalesced credit expression changed: ' + D.render(v)[:160])
+        ok = is_counter_add(v, 'total_recvd', lambda x: is_len_of(x, lambda y: is_param(y, 'data')))
+        once = not on_cycle(w.body, w.bb)
+        ctx.check(ok and once, 'd', 'coalesced_remainder_credited_once', hc, w.where(), D.render(v)[:120],
+                  ('handle_coalesced must credit exactly the length of its `data` argument: ' + D.render(v)[:160]) if not ok else 'the credit of handle_coalesced sits in a loop: it is applied once per coalesced packet instead of once per datagram')
     ctx.check(len(store_values(ctx, PD, 'total_recvd', in_fn=hc)) == 1 and len(store_values(ctx, PD, 'total_recvd', in_fn=he)) == 1, 'd', 'one_credit_per_function', hc, hc.where(), 'one store each', 'number of total_recvd stores changed')
     who_may_call(ctx, 'd', 'handle_coalesced_callers', ['Connection::handle_coalesced'], ['Connection::handle_event', 'Connection::handle_first_packet'], floor=2)
     hf = ctx.pfn('Connection::handle_first_packet')
-    for w, v in store_values(ctx, PD, 'total_recvd', in_fn=hf):
-        ok = D.has_field(v, 'header_data') and D.has_field(v, 'payload')
-        ctx.check(ok, 'd', 'first_initial_credit', hf, w.where(), D.render(v)[:120], 'first-packet credit is not header_data.len() + payload.len()')
+    fs = store_values(ctx, PD, 'total_recvd', in_fn=hf)
+    for w, v in fs:
+        pk = lambda f: (lambda x: is_len_of(x, lambda y: is_field_of(y, f, lambda z: is_param(z, 'packet'))))
+        ok = two(v, 'Add', pk('header_data'), pk('payload')) and not on_cycle(w.body, w.bb)
+        ctx.check(ok, 'd', 'first_initial_credit', hf, w.where(), D.render(v)[:120],
+                  'first-packet credit is not exactly header_data.len() + payload.len() (the coalesced remainder is credited by handle_coalesced): ' + D.render(v)[:200])
+    ctx.check(len(fs) == 1, 'd', 'first_initial_credited_once', hf, hf.where(), 'one store', 'handle_first_packet writes total_recvd %d times (expected exactly one store)' % len(fs))
 
 
 def rule_e(ctx):
@@ -131,23 +270,54 @@ def rule_e(ctx):
     es = bool_edges(ctx, sr, lambda d: d[0] == 'call' and d[1] == 'Option::is_some_and' and D.has_field(d, 'last_stateless_reset'))
     ok = bool(es) and all(all(t.bb not in sr.reachable_from(tgt) for t in trs) for br, truth, tgt in es if truth)
     ctx.check(ok, 'e', 'reset_rate_limited', sr, sr.where(), 'last + min_reset_interval > now -> None', 'stateless resets are no longer rate limited')
-    cl = [b for b in F.closures_of(sr)]
-    okc = False
-    for b in cl:
-        for _, x in ret_descs(F, b):
-            for y in flat(x):
-                if y[0] == 'bin' and y[1] == 'Lt' and D.render(y).find('min_reset_interval') >= 0:
-                    okc = True
-    ctx.check(okc, 'e', 'reset_interval_relation', sr, sr.where(), 'last + min_reset_interval > now', 'rate limit relation changed')
-    st = [w for w in field_writes(F, 'endpoint::Endpoint', 'last_stateless_reset', crate='quinn_proto') if F.root_of(w.body).id == sr.id and w.kind == 'assign']
-    ok = bool(st) and all(any(sr.dominates(w.bb, t.bb) for w in st) for t in trs)
-    ctx.check(ok, 'e', 'reset_time_recorded', sr, sr.where(), 'last_stateless_reset = Some(now) before sending', 'the time of the last stateless reset is not recorded on the sending path')
+    # the predicate handed to is_some_and: `now` strictly (or weakly) before `last + min_reset_interval`, in this direction
+    isa = [c for c in sr.calls_to('Option::is_some_and') if c.args and is_field_of(arg_desc(F, c, 0), 'last_stateless_reset', is_self)]
+    cl = [b for c in isa for b in closure_args(F, c)]
+    now = lambda x: x == ('upvar', 'now')
+    last = lambda x: x[0] == 'param' and x[1] == 2          # the closure's own argument (_1 is the environment)
+    ivl = lambda x: is_field_of(x, 'min_reset_interval')
+
+    def plus(x, p, q):      # p + q with the operator of Instant/Duration (a trait call) or of integers
+        if x[0] == 'call' and D._trait_form(x[1]) == 'Add::add' and len(x[3]) == 2:
+            return (p(x[3][0]) and q(x[3][1])) or (p(x[3][1]) and q(x[3][0]))
+        return two(x, 'Add', p, q)
+
+    def minus(x, p, q):     # p - q (operator, duration_since, saturating_duration_since)
+        if x[0] == 'call' and (D._trait_form(x[1]) == 'Sub::sub' or x[1].rsplit('::', 1)[-1] in ('duration_since', 'saturating_duration_since')) and len(x[3]) == 2:
+            return p(x[3][0]) and q(x[3][1])
+        return x[0] == 'bin' and x[1] == 'Sub' and p(x[2]) and q(x[3])
+
+    def within(y):
+        if not (y[0] == 'bin' and y[1] in ('Lt', 'Le')):
+            return False
+        return (now(y[2]) and plus(y[3], last, ivl)) or (minus(y[2], now, last) and ivl(y[3]))
+    rds = [y for b in cl for _, x in ret_descs(F, b) for y in flat(x)]
+    okc = len(cl) == 1 and bool(rds) and all(within(y) for y in rds)
+    ctx.check(okc, 'e', 'reset_interval_relation', sr, sr.where(), 'last + min_reset_interval > now', 'rate limit relation changed (must hold exactly while now < last + min_reset_interval): %s' % [D.render(y)[:120] for y in rds])
+    st = [w for w in field_writes(F, 'endpoint::Endpoint', 'last_stateless_reset', crate='quinn_proto') if F.root_of(w.body).id == sr.id and w.kind in ('assign', 'callresult')]
+    dsr = describer(F, sr)
+
+    def some_now(w):
+        if w.kind != 'assign' or not w.rv or w.rv[0] == 'sd' or w.body.id != sr.id:
+            return False
+        v = dsr.rvalue(w.rv, w.bb, w.idx, 0)
+        return v[0] == 'agg' and v[1] == 'adt' and v[2].endswith('Option::Some') and len(v[3]) == 1 and is_param(v[3][0], 'now')
+    ok = bool(st) and all(some_now(w) for w in st) and all(any(sr.dominates(w.bb, t.bb) for w in st) for t in trs)
+    ctx.check(ok, 'e', 'reset_time_recorded', sr, sr.where(), 'last_stateless_reset = Some(now) before sending', 'the time of the last stateless reset is not recorded (as Some(now)) on the sending path')
     # max_padding_len = headroom - 1 under headroom > MIN_PADDING_LEN
     mp = local_defs_desc(ctx, sr, 'max_padding_len')
-    ok = any(y[0] == 'bin' and y[1] == 'Sub' and D.has_const(y[3], 1) and D.has_call(y[2], 'usize::checked_sub') for x in mp for y in flat(x))
+
+    def headroom(x):        # the payload of Some(..) = inciting_dgram_len.checked_sub(RESET_TOKEN_SIZE)
+        if not (x[0] == 'field' and x[2] == '0' and x[1][0] == 'variant' and x[1][2] == 'Some'):
+            return False
+        c = x[1][1]
+        return c[0] == 'call' and c[1] == 'usize::checked_sub' and len(c[3]) == 2 and is_param(c[3][0], 'inciting_dgram_len') \
+            and c[3][1][0] == 'const' and D.has_const(c[3][1], named='RESET_TOKEN_SIZE')
+    alts = [y for x in mp for y in flat(x)]
+    ok = bool(alts) and all(y[0] == 'bin' and y[1] == 'Sub' and headroom(y[2]) and is_int(y[3], 1) for y in alts)
     ctx.check(ok, 'e', 'reset_smaller_than_inciting', sr, sr.where(), 'max_padding_len = (inciting - RESET_TOKEN_SIZE) - 1', 'the stateless reset is no longer strictly smaller than the inciting datagram: %s' % [D.render(x)[:100] for x in mp])
-    es = guard_edges(ctx, sr, lambda o, a, b: o == 'Lt' and D.has_const(a, 5) and D.has_call(b, 'usize::checked_sub'))
-    ctx.check(bool(es), 'e', 'reset_needs_headroom', sr, sr.where(), 'headroom > MIN_PADDING_LEN', 'the minimum-size test of stateless resets is gone')
+    # headroom <= MIN_PADDING_LEN (the violating relation) must lead away from every Transmit construction
+    guard_protects(ctx, 'e', 'reset_needs_headroom', sr, lambda o, a, b: o == 'Le' and headroom(a) and is_int(b, 5), [t.bb for t in trs], what='headroom > MIN_PADDING_LEN')
     pl = local_defs_desc(ctx, sr, 'padding_len')
     mpr = {D.render(y) for x in mp for y in flat(x)}
 
@@ -169,10 +339,15 @@ def rule_f(ctx):
         [c.bb for c in constructions(F, 'DatagramEvent', 'NewConnection', crate='quinn_proto') if F.root_of(c.body).id == hf.id]
     guard_protects(ctx, 'f', 'short_initial_ignored', hf, lambda o, a, b: o == 'Lt' and D.has_param(a, name='datagram_len') and D.has_const(b, named='MIN_INITIAL_SIZE'), prot, what='datagram_len < MIN_INITIAL_SIZE')
     ctx.floor('f', 'protected_sites', len(prot), 5)
-    es = guard_edges(ctx, hf, lambda o, a, b: o == 'Lt' and D.has_param(a, name='datagram_len') and D.has_const(b, named='MIN_INITIAL_SIZE'))
+    short_rel = lambda o, a, b: o == 'Lt' and is_param(a, 'datagram_len') and b[0] == 'const' and D.has_const(b, named='MIN_INITIAL_SIZE')
+    es = guard_edges(ctx, hf, short_rel)
+    ctx.floor('f', 'short_initial_guards', len(es), 1)
     for br, truth, tgt in es:
-        rd = [y for r in hf.return_blocks() if r in hf.reachable_from(tgt, avoid=prot) for y in flat(describer(F, hf).place([0, []], r, term_idx(hf, r)))]
-        ctx.check(bool(rd) and any(y[0] == 'agg' and y[2].endswith('None') for y in rd), 'f', 'short_initial_gets_no_reply', hf, br.where(), 'returns None', 'a short Initial produces a reply')
+        # what is returned ON the short edge (the return block is shared by every `return` of the function)
+        rd = edge_returns(F, hf, br.bb, tgt)
+        ok = bool(rd) and all(y is not None and y[0] == 'agg' and y[1] == 'adt' and y[2].endswith('Option::None') for x in rd for y in (flat(x) if x is not None else [None]))
+        ctx.check(ok, 'f', 'short_initial_gets_no_reply', hf, br.where(), 'returns None',
+                  'a short Initial produces a reply: on the datagram_len < MIN_INITIAL_SIZE edge the function returns %s' % [D.render(x)[:100] if x is not None else '?' for x in rd])
 
 
 def rule_g(ctx):
